@@ -2,11 +2,39 @@
 import itertools
 
 import abbr_gen as g
-from markup_util import run_cases
+from markup_util import run_cases, canon_cfg
 
 CONFIGS = [{}, {'syntax': 'xml'}, {'options': {'output.selfClosingStyle': 'xhtml'}},
            {'options': {'output.format': False}}, {'syntax': 'xml', 'options': {'output.format': False}},
            {'cache': {}}, {'cache': {}, 'options': {'output.selfClosingStyle': 'xhtml'}}]
+
+
+# ---------------------------------------------------------------- documented facts the oracle depends on
+# The property names "inline elements" without listing them.  The list is hard-coded here and NOT read from the
+# library under test (emmet/config.py DEFAULT_OPTIONS['inlineElements'] is exactly the table a change could alter).
+# Source: the documented default of Emmet's `inlineElements` option (Emmet docs / upstream emmet src/config.ts), which
+# is the HTML 4.01 %inline; content model (%fontstyle; %phrase; %special; %formctrl;) plus the deprecated inline
+# elements of HTML 4 Transitional (applet, basefont, font, s, strike, u, iframe) and ins/del.
+HTML_INLINE_DOC = ['a', 'abbr', 'acronym', 'applet', 'b', 'basefont', 'bdo', 'big', 'br', 'button', 'cite', 'code',
+                   'del', 'dfn', 'em', 'font', 'i', 'iframe', 'img', 'input', 'ins', 'kbd', 'label', 'map', 'object',
+                   'q', 's', 'samp', 'select', 'small', 'span', 'strike', 'strong', 'sub', 'sup', 'textarea', 'tt',
+                   'u', 'var']
+# block-level / unknown parents (implicit child: div) used next to the documented ones
+BLOCK_PARENTS = ['div', 'section', 'article', 'main', 'nav', 'h1', 'li', 'td', 'custom', 'x-y', 'ns:el', 'spa', 'spann', 'em-x', 'ema',
+                 'bb', 'uu']
+# Nesting explored by the deep-nesting class: elements + groups on one root-to-leaf path.  The library itself raises
+# RecursionError from about 244 levels on (interpreter recursion limit 1000), which is outside the statement.
+DEEP_MAX = 200
+# sum of the depths of all elements of a formatted output above which a case is not sent through the extracted model
+MODEL_INDENT_BUDGET = 5000
+DEEP_NESTING = True          # generator class "nesting far deeper than any example" on / off
+INLINE_PARENTS_FULL = True   # generator class "nameless element below EVERY documented inline / mapped parent" on / off
+
+
+def use_documented_inline():
+    """Point the independent denotation (abbr_gen.unroll) at the hard-coded inline list."""
+    g.INLINE.clear()
+    g.INLINE.update(HTML_INLINE_DOC)
 
 
 def writes_self_closed_leaves(cfg):
@@ -27,14 +55,20 @@ def oracle(abbr, cfg, meta, r):
 
 def gen(ctx):
     names = g.safe_names()
-    g.load_inline()
+    use_documented_inline()
     rng = ctx.rng
     cases = []
+    oracle_only = []
 
     def add(stmt, cfg):
         abbr = g.render(stmt)
         exp = g.preorder(g.unroll(g.denote_stmt(stmt)))
-        cases.append((abbr, cfg, exp))
+        if (cfg.get('options') or {}).get('output.format', True) and sum(d for d, _ in exp) > MODEL_INDENT_BUDGET:
+            # the extracted model spends seconds on the indentation of such an output: implementation + oracle only
+            oracle_only.append((abbr, cfg, exp))
+            ctx.cover('C01:oracle-only(deep formatted output, model too slow)')
+        else:
+            cases.append((abbr, cfg, exp))
         ctx.nontrivial(abbr) if len(exp) >= 2 else None
 
     # corpus: shapes that exposed defects or are easy to get wrong
@@ -101,6 +135,14 @@ def gen(ctx):
             add([(g.El(name=nm, repeat=2), '>'), (g.El(name=nm), '>'), (g.El(name='u'), '')], cfg)
             if writes_self_closed_leaves(cfg) and (void or sc):
                 add([(g.El(name='div'), '>'), (g.El(name=nm, self_close=sc), '+'), (g.El(name='p'), '>'), (g.El(name=nm, self_close=sc), '')], cfg)
+    # nameless element below EVERY documented inline element, every documented mapped parent and block / unknown
+    # parents (incl. near-miss names: prefixes / extensions of inline names), in several positions: direct child,
+    # below a repeated parent, inside a repeated group, as later sibling after a climb, several levels down
+    if INLINE_PARENTS_FULL:
+        implicit_parent_table(ctx, add, names)
+    # nesting far deeper than any hand-written example (chains of `>`, nested groups, long climbs)
+    if DEEP_NESTING:
+        deep_nesting(ctx, add, names)
     # random large statements
     n_rand = 1500 if ctx.tier == 'quick' else 40000
 
@@ -120,7 +162,152 @@ def gen(ctx):
             continue
         g.mark_self_close(st, rng, leafy)
         add(st, cfg)
-    return cases
+    return cases, oracle_only
+
+
+
+def implicit_parents():
+    """(parent name, is void snippet) for the implicit-name table: documented inline elements, documented mapped
+    parents, block / unknown names.  `map` and `object` are inline elements for which the code has an own child
+    name (area / param) the statement does not mention: not used as parents."""
+    from emmet.snippets import markup_snippets
+    void = {k for k, v in markup_snippets.items() if v.endswith('/')}
+    block = [n for n in BLOCK_PARENTS if n not in markup_snippets]
+    seen = []
+    for n in HTML_INLINE_DOC + sorted(g.IMPLICIT_DOC) + block:
+        if n in g.UNDOCUMENTED_PARENTS or n in seen:
+            continue
+        seen.append(n)
+    return [(n, n in void) for n in seen]
+
+
+def implicit_parent_table(ctx, add, names):
+    rng = ctx.rng
+    decos = (dict(classes=['c']), dict(id='i'), dict(attrs=[('t', 'v', '')]), dict(classes=['c', 'd'], id='i'))
+    parents = implicit_parents()
+    ctx.cov['implicit_parent_names'] = len(parents)
+    k = 0
+    for p, void in parents:
+        for case_p in (p, p.upper(), p.capitalize()):
+            if case_p != p and (void or rng.random() < 0.5):
+                continue      # other spellings of the parent: about half of the names per run, void snippets skipped
+            d = lambda: decos[rng.randrange(len(decos))]
+            nl = lambda **kw: g.El(name=None, **dict(d(), **kw))
+            outer = rng.choice(names)
+            shapes = [
+                [(g.El(name=case_p), '>'), (nl(), '')],
+                [(g.El(name=outer), '>'), (g.El(name=case_p, repeat=2), '>'), (nl(), '+'), (nl(), '')],
+                [(g.Group([(g.El(name=outer), '>'), (g.El(name=case_p), '>'), (nl(), '')], repeat=2), '+'), (nl(), '')],
+                [(g.El(name=outer), '>'), (g.El(name=case_p), '>'), (g.El(name='b'), '>'), (g.El(name='i'), '^^'), (nl(), '>'), (nl(), '^^^^'), (nl(), '')],
+                [(g.El(name=case_p), '>'), (g.Group([(nl(), '+'), (nl(repeat=2), '>'), (g.El(name=case_p), '>'), (nl(), '')]), '+'), (nl(), '')],
+            ]
+            for st in shapes:
+                add(st, CONFIGS[k % len(CONFIGS)])
+                k += 1
+                ctx.cover('implicit-parent-table')
+    # random statements over the same names with many nameless elements
+    pool_all = [p for p, void in parents if not void]
+    pool_leafy = [p for p, void in parents]
+
+    def decorate(rng, el):
+        if rng.random() < 0.4:
+            el.name = None
+            el.classes = ['k']
+    for _ in range(250 if ctx.tier == 'quick' else 5000):
+        cfg = rng.choice(CONFIGS)
+        leafy = writes_self_closed_leaves(cfg)
+        st = g.rand_stmt(rng, pool_leafy if leafy else pool_all, rng.randint(2, 9), max_depth=2, rep_max=3, decorate=decorate)
+        if g.total_copies(g.unroll(g.denote_stmt(st))) > 300:
+            continue
+        add(st, cfg)
+        ctx.cover('implicit-random')
+
+
+def deep_depths(rng, n_random, top):
+    fixed = {b + d for b in (16, 32, 64, 128) for d in (-2, -1, 0, 1, 2, 3)} | {24, 48, 96, 100, 150, top}
+    return sorted(d for d in fixed if d <= top) + [rng.randint(10, top) for _ in range(n_random)]
+
+
+def deep_nesting(ctx, add, names):
+    """Statements whose denoted tree is 10 .. DEEP_MAX levels deep: depth around every power of two and random
+    depths; the deepest element always has children of its own."""
+    rng = ctx.rng
+    top = DEEP_MAX - 10
+    imp_pool = sorted(g.IMPLICIT_DOC) + ['em', 'sub', 'strong', 'div', 'section', 'li', 'td']
+
+    def el(pool=names, nameless_p=0.0):
+        e = g.El(name=rng.choice(pool))
+        if rng.random() < nameless_p:
+            e.name = None
+            e.classes = ['k']
+        return e
+
+    def chain(depth, sib_p=0.0, nameless_p=0.0, pool=names, rep_levels=()):
+        st = []
+        for lv in range(depth):
+            if rng.random() < sib_p:
+                st.append((el(pool, nameless_p), '+'))
+            e = el(pool, nameless_p if lv else 0.0)
+            if lv in rep_levels:
+                e.repeat = 2
+            st.append((e, '>'))
+        return st
+
+    def bottom(pool=names, nameless_p=0.0):
+        def deco(rng, e):
+            if rng.random() < nameless_p:
+                e.name = None
+                e.classes = ['k']
+        return g.rand_stmt(rng, pool, rng.randint(2, 5), max_depth=1, rep_max=2, decorate=deco)
+
+    def shape_chain(d):
+        return chain(d) + bottom()
+
+    def shape_siblings(d):
+        return chain(d, sib_p=0.15) + bottom()
+
+    def shape_climb(d):
+        k = rng.choice([1, 2, d // 2, d - 1, d, d + 1, d + 5, rng.randint(1, d + 5)])
+        return chain(d) + [(el(), '^' * max(1, k))] + bottom()
+
+    def shape_groups(d):
+        # x>y>(x>y>(... (bottom))): n_groups nested groups, `per` elements in front of each; elements + groups <= d
+        n_groups = rng.randint(2, max(2, min(50, d // 2)))
+        per = max(1, (d - n_groups) // n_groups)
+        inner = bottom()
+        for lv in range(n_groups):
+            rep = 2 if lv == n_groups - 1 and rng.random() < 0.5 else None
+            tail = [(el(), '')] if rng.random() < 0.3 else []
+            inner = chain(per) + [(g.Group(inner, repeat=rep), '+' if tail else '')] + tail
+        return inner
+
+    def shape_repeated(d):
+        levels = set(rng.sample(range(d), 2))
+        st = chain(d, rep_levels=levels) + bottom()
+        if rng.random() < 0.5:
+            st = [(g.Group(st, repeat=2), '+'), (el(), '')]
+        return st
+
+    def shape_implicit(d):
+        return chain(d, sib_p=0.1, nameless_p=0.25, pool=imp_pool) + bottom(imp_pool, 0.4)
+
+    shapes = [('chain', shape_chain), ('chain-siblings', shape_siblings), ('chain-climb', shape_climb),
+              ('nested-groups', shape_groups), ('repeated', shape_repeated), ('implicit', shape_implicit)]
+    depths = deep_depths(rng, 20 if ctx.tier == 'quick' else 150, top)
+    k = 0
+    deepest = 0
+    for d in depths:
+        for label, fn in (shapes if ctx.tier != 'quick' else rng.sample(shapes, 3)):
+            st = fn(d)
+            tree = g.unroll(g.denote_stmt(st))
+            if g.total_copies(tree) > 1500:
+                continue
+            add(st, CONFIGS[k % len(CONFIGS)])
+            k += 1
+            deepest = max(deepest, d)
+            ctx.cover('deep:%s' % label)
+            ctx.cover('deep:depth-%s' % ('10-63' if d < 64 else '64-127' if d < 128 else '128-%d' % top))
+    ctx.cov['deep_nesting'] = {'statements': k, 'deepest_chain': deepest}
 
 
 def run(ctx):
@@ -133,10 +320,32 @@ def run(ctx):
     model = ctx.model('markup') if ok else None
     ctx.cov['rule'] = ('statements generated from an AST (elements, > + ^ groups, *N, nameless elements), rendered to text; '
                        'exhaustive operator skeletons up to the stated size, implicit-name table, random large statements; '
+                       'implicit-parent-table: a nameless element (class / id / attribute) below EVERY element of the documented '
+                       'HTML inline list (hard-coded in the harness from the Emmet option documentation, not read from the '
+                       'library; map/object excluded: own undocumented child names), every documented mapped parent and block / '
+                       'unknown / near-miss names, lower-case and for about half of them upper-case / capitalised, as direct child, '
+                       'below a repeated parent, inside a repeated group, after climbs, inside a group below the parent; plus random '
+                       'statements over these names with 40%% nameless elements (implicit-random); '
+                       'deep nesting (deep:*): trees 10..%d levels deep (every depth within -2..+3 of 16/32/64/128, 24/48/96/100/150/%d '
+                       'and random depths) as plain `>` chains, chains with siblings on the way, chains followed by climbs of 1..depth+5 '
+                       'levels, nested groups, repeated levels / repeated whole chain, chains with nameless elements; the deepest '
+                       'element always has children; deeper than about 244 levels the library raises RecursionError (not explored); '
+                       'formatted outputs whose summed element depth exceeds %d are checked by implementation + oracle only '
+                       '(extracted model takes seconds on their indentation; counted in oracle_only_cases), all others also '
+                       'through the model; '
                        'non-trivial = denotes at least two elements; distinct by abbreviation text. Oracle: element tree of '
-                       'the output (tag parser) = independent denotation of the AST. Excluded shapes: ")>" (child of a group).')
-    cases = gen(ctx)
-    impl = run_cases(ctx, model, cases, 'C01', oracle)
+                       'the output (tag parser) = independent denotation of the AST (inline-ness from the hard-coded documented list). '
+                       'Excluded shapes: ")>" (child of a group).' % (DEEP_MAX - 10, DEEP_MAX - 10, MODEL_INDENT_BUDGET))
+    cases, oracle_only = gen(ctx)
+    impl = run_cases(ctx, model, cases, 'C01', None)      # implementation + model correspondence
+    impl += run_cases(ctx, None, oracle_only, 'C01', None)  # implementation only
+    cases = cases + oracle_only
+    ctx.cov['oracle_only_cases'] = len(oracle_only)
+    for (abbr, cfg, meta), r in zip(cases, impl):         # property oracle on every implementation result
+        bad = oracle(abbr, cfg, meta, r)
+        if bad:
+            ctx.property_failure('C01:%s|%s' % (abbr, canon_cfg(cfg)), 'C01 expand(%r, %s): %s' % (abbr[:300], canon_cfg(cfg), bad),
+                                 {'component': 'C01', 'abbr': abbr, 'config': cfg, 'meta': meta, 'impl': repr(r)[:500], 'why': bad})
     poisoned_sequences(ctx, cases)
     for (abbr, cfg, exp), r in list(zip(cases, impl))[200:204]:
         ctx.sample({'abbr': abbr, 'config': cfg, 'denoted': exp[:8], 'output': r[1][:120] if r[0] == 'ok' else r})
@@ -182,8 +391,12 @@ def replay(ctx, obj):
         bad = oracle(rp['abbr'], rp['config'], [tuple(x) for x in rp['meta']], r)
         print('expand(%r) after rejected %r -> %r : %s' % (rp['abbr'], rp['poison'], r, bad or 'property holds'))
         return 1 if bad else 0
-    import emmet.abbreviation  # noqa
-    # re-derive the denotation from the text is not possible; re-run the recorded comparison
     r = impl_expand(rp['abbr'], rp['config'])
+    if 'meta' in rp:
+        # the denoted tree was recorded with the input: state the property on the fresh result
+        bad = oracle(rp['abbr'], rp['config'], [tuple(x) for x in rp['meta']], r)
+        print('expand(%r, %r) -> %s : %s' % (rp['abbr'], rp['config'], repr(r)[:600], bad or 'property holds'))
+        return 1 if bad else 0
+    # older replay files without the denotation: re-run the recorded comparison
     print('expand(%r, %r) -> %r\nrecorded failure: %s' % (rp['abbr'], rp['config'], r, rp.get('why')))
     return 1 if repr(r)[:500] == rp.get('impl') else 0
